@@ -65,10 +65,14 @@ def romanAux : List (Nat × Text) → Nat → Text
   | [], _ => []
   | (v, s) :: rest, n => (List.replicate (n / v) s).flatten ++ romanAux rest (n % v)
 
-/-- Lowercase roman numeral of every `n > 0` (greedy: from 4000 on the thousands are repeated `m`,
-there being no numeral above it). -/
+/-- Bound of the domain: thousands are repeated `m`, so a label grows with the value; numerals are
+demanded for values below one million (at most 1000 `m`). -/
+def romanMax : Nat := 1000000
+
+/-- Lowercase roman numeral of every `0 < n < romanMax` (greedy: from 4000 on the thousands are
+repeated `m`, there being no numeral above it). -/
 def roman (n : Nat) : Option Text :=
-  if 0 < n then some (romanAux romanTable n) else none
+  if 0 < n ∧ n < romanMax then some (romanAux romanTable n) else none
 
 /-- Value of a numeral in subtractive notation (for the sanity theorem `roman_value`). -/
 def romanDigitValue (c : Nat) : Nat :=
